@@ -78,6 +78,9 @@ impl Property for C02 {
         if rng.chance(3, 100) {
             world.file_name = 4;
         }
+        if rng.chance(2, 100) {
+            world.spelling = 7 + rng.below(5) as u8;
+        }
         if rng.chance(3, 100) {
             // real kernel faults: a pipe whose reader has gone (EPIPE)
             if rng.chance(1, 2) {
